@@ -84,7 +84,7 @@ impl Prop for C08 {
     }
     fn cases(&self, tier: Tier) -> u64 {
         match tier {
-            Tier::Quick => 1 << 18,
+            Tier::Quick => 1 << 19,
             Tier::Thorough => 1 << 24,
         }
     }
